@@ -194,6 +194,17 @@ theorem no_unguarded_access : ∀ acc ∈ Generated.aggAccesses, acc.2.2.2 = tru
     they are shown cannot change under them -/
 theorem callbacks_inside_critical_section : ∀ c ∈ Generated.aggCallbackCalls, c.2.2 = true := by decide
 
+/-- the critical sections are EXCLUSIVE where they have to be: a method that writes shared state, or that
+    hands a live record to a user callback (the documented use of those callbacks is to modify the record:
+    ResetStatAndThroughputElementsInRecord, SetExternalFieldsFilled, ...), or the query that renders live
+    records (GetRecords reads what such a callback writes), never takes a.mutex in shared mode - two such
+    operations cannot overlap, which is what "one atomic step each" in the model means. A read lock in a
+    method that only reads scalars (GetNumFlows) would be harmless and does not break this. -/
+theorem exclusive_lock_where_records_are_exposed :
+    (∀ acc ∈ Generated.aggAccesses, acc.2.2.1 = "w" → acc.1 ∉ Generated.aggSharedLockUsers) ∧
+    (∀ c ∈ Generated.aggCallbackCalls, c.1 ∉ Generated.aggSharedLockUsers) ∧
+    "GetRecords" ∉ Generated.aggSharedLockUsers := by decide
+
 /-- one critical section per operation: no method acquires the lock more than once, so an operation
     is ONE atomic step (per record for ingestion) -/
 theorem one_critical_section_per_operation : ∀ m ∈ Generated.aggLockRegions, m.2.1 ≤ 1 := by decide
